@@ -60,9 +60,15 @@ def interesting_bytes(rng):
     return [rng.getrandbits(8) for _ in range(rng.randrange(0, 24))]
 
 
-def build_scenario(rng, payloads, attacker_authorized):
+def build_scenario(rng, payloads, attacker_authorized, proto=False):
     """payloads: list of (channel, bytes) to inject, spread over the scenario."""
-    lines, meta = gen_scripts.gen_script(rng, nclients=2, auth="custom", late_join=False, length=40, events=True, sessions=False)
+    lines, meta = gen_scripts.gen_script(rng, nclients=2, auth="proto" if proto else "custom", late_join=False, length=40, events=True, sessions=False)
+    if proto:
+        # default authorization method: channel 1 carries the protocol hash, the event channels follow; the attacker's
+        # bytes also go to the hash channel (garbage, wrong hashes, the right hash twice)
+        payloads = [(ch + 1 if ch >= 1 else ch, bs) for ch, bs in payloads]
+        payloads = payloads + [(1, bs) for ch, bs in payloads[:len(payloads) // 4]]
+        rng.shuffle(payloads)
     # slot 0 is the attacker: (un)authorize it explicitly right after the generated prologue
     out = []
     for l in lines:
@@ -70,11 +76,13 @@ def build_scenario(rng, payloads, attacker_authorized):
             if not attacker_authorized:
                 continue
         out.append(l)
-    if attacker_authorized and "authorize 0" not in lines:
+    if proto:
+        pass        # authorization is decided by the handshake
+    elif attacker_authorized and "authorize 0" not in lines:
         idx = max(i for i, l in enumerate(out) if l.startswith("connect 0")) if any(l.startswith("connect 0") for l in out) else None
         if idx is not None:
             out.insert(idx + 1, "authorize 0")
-    if "authorize 1" not in out and any(l.startswith("connect 1") for l in out):
+    if not proto and "authorize 1" not in out and any(l.startswith("connect 1") for l in out):
         idx = max(i for i, l in enumerate(out) if l.startswith("connect 1"))
         out.insert(idx + 1, "authorize 1")
     # inject in bursts before server frames in the second half
@@ -96,6 +104,8 @@ def build_scenario(rng, payloads, attacker_authorized):
         res.append("sframe 1 16")
     meta["connected"] = [c for c in (0, 1) if any(l.startswith("connect %d" % c) for l in res) and not any(l.startswith("disconnect %d" % c) for l in res)]
     meta["authorized"] = [1] + ([0] if attacker_authorized else [])
+    if proto:
+        meta["connected"] = [c for c in meta["connected"] if c != meta.get("mismatch")]
     settle_from = len(res)
     res += gen_scripts.settle_lines(meta)
     return res, settle_from
@@ -105,6 +115,8 @@ def strip_attacker(block):
     out = []
     for l in block:
         f = l.split()
+        if simlib.HANDSHAKE.match(l):
+            continue
         if f and f[0] in ("upd", "mut", "evt", "view", "cli", "ack", "bad-partition", "got", "cevt", "tickrecv") and len(f) > 1 and f[1] == "0":
             continue
         if f and f[0] == "from":
@@ -136,7 +148,7 @@ def run(tier, seed, replay):
     chunks = [payloads[i::nscen] for i in range(nscen)]
     batch, metas = [], []
     for i, pl in enumerate(chunks):
-        lines, sf = build_scenario(rng, pl, attacker_authorized=(i % 2 == 0))
+        lines, sf = build_scenario(rng, pl, attacker_authorized=(i % 2 == 0), proto=(i % 4 == 3))
         batch.append(lines)
         metas.append(sf)
     # implementation with the injected bytes
@@ -154,10 +166,21 @@ def run(tier, seed, replay):
     oracle_fail, diverged = [], []
     # decode verdicts of the byte-level Coq models
     inj = [(i, l.split()) for i, l in enumerate(all_lines) if l.startswith("inject")]
+    proto_at = {}
+    for (a, b), lines in zip(bounds, batch):
+        pr = "auth=proto" in lines[0]
+        for i in range(a, b):
+            proto_at[i] = pr
+
+    def logical_channel(i, ch):
+        """0 ack, 1 CE0, 2 CEM, 3 CT, -1 protocol hash"""
+        if not proto_at.get(i):
+            return ch
+        return 0 if ch == 0 else (-1 if ch == 1 else ch - 1)
     dec_lines = []
     for i, f in inj:
-        ch = int(f[2])
-        dec_lines.append("ack_dec %s" % f[3] if ch == 0 else "cev_dec %s %s" % (CH_NAMES[ch], f[3]))
+        ch = logical_channel(i, int(f[2]))
+        dec_lines.append("ack_dec %s" % f[3] if ch <= 0 else "cev_dec %s %s" % (CH_NAMES[ch], f[3]))
     verdicts = run_lines(os.path.join(OCAML, "driver"), dec_lines, shards=8) if dec_lines else []
     nontriv = set()
     kinds = dict(ack=0, ce0_ok=0, cem_ok=0, ct_ok=0, err=0)
@@ -180,7 +203,7 @@ def run(tier, seed, replay):
     for i, l in enumerate(all_lines):
         if l.startswith("inject"):
             f = l.split()
-            pending.append((int(f[2]), verdicts[vi] if vi < len(verdicts) else "?"))
+            pending.append((logical_channel(i, int(f[2])), verdicts[vi] if vi < len(verdicts) else "?"))
             vi += 1
         elif l.startswith("sframe"):
             blk = impl_blocks[i] if i < len(impl_blocks) else []
@@ -192,6 +215,9 @@ def run(tier, seed, replay):
             for ch, v in pending:
                 if ch == 0:
                     kinds["ack"] += 1
+                    continue
+                if ch == -1:
+                    kinds["hash"] = kinds.get("hash", 0) + 1
                     continue
                 if v.startswith("PANIC"):
                     oracle_fail.append(dict(problem=dict(step_index=i, step=l, why="the byte-level model says this message panics the decoder"), script=[]))
